@@ -69,6 +69,15 @@ def regex_shape(pattern):
 
 def s1(ctx, rep):
     P = ctx.P
+    from .common import require_guard
+    enc = [g_ for g_ in P.functions.values() if g_.qualname.endswith("dump_json_with_numpy.<locals>.np_encoder") or g_.qualname.endswith("util.np_encoder")]
+    if len(enc) == 1:
+        ce = cfg_of(enc[0])
+        items = [n.id for n in ce.nodes if n.kind == "stmt" and isinstance(n.ast, ast.Return) and n.ast.value is not None
+                 and any(isinstance(y, ast.Call) and fn_name(y) == "item" for y in ast.walk(n.ast.value))]
+        require_guard(ctx, rep, "S2", enc[0], "np_encoder: `.item()` is returned | the object is a numpy scalar", items,
+                      [("isinstance(obj, np.generic)", lambda a: a[0] == "isinstance" and a[2] == "np.generic" and a[3] is True)],
+                      "numpy scalars in a report raise TypeError (and other objects are asked for .item())")
     w = P.func("syne_tune.report._report_logger")
     r = P.func("syne_tune.report.retrieve")
     prints = [x for x in walk_shallow(w.node) if isinstance(x, ast.Call) and isinstance(x.func, ast.Name) and x.func.id == "print"]
